@@ -170,7 +170,9 @@ public:
     // The converged singular values
     Vector singular_values() const
     {
-        Vector svals = m_eigs->eigenvalues().cwiseSqrt();
+        // Eigenvalues of A'A (or AA') that are zero up to rounding errors
+        // can be computed as tiny negative numbers
+        Vector svals = m_eigs->eigenvalues().cwiseMax(Scalar(0)).cwiseSqrt();
 
         return svals;
     }
